@@ -201,20 +201,61 @@ Definition mk_time (sec nsec : N) : gtime :=
 
 Definition eof {A} (o : option A) : res A := match o with Some a => Ok a | None => Err EEof end.
 
-(* readEntry + readEntryName + padEntry *)
+(* the fixed-size part of readEntry: ten uint32, the object name, the flags *)
+Record fixedf := mkF { f_sec : N; f_nsec : N; f_msec : N; f_mnsec : N; f_dev : N; f_ino : N; f_mode : N;
+                       f_uid : N; f_gid : N; f_size : N; f_hash : bytes; f_flags : N }.
+Definition read_fixed (b : bytes) : option (fixedf * bytes) :=
+  match get_u32 b with None => None | Some (sec, b) =>
+  match get_u32 b with None => None | Some (nsec, b) =>
+  match get_u32 b with None => None | Some (msec, b) =>
+  match get_u32 b with None => None | Some (mnsec, b) =>
+  match get_u32 b with None => None | Some (dev, b) =>
+  match get_u32 b with None => None | Some (ino, b) =>
+  match get_u32 b with None => None | Some (mode, b) =>
+  match get_u32 b with None => None | Some (uid, b) =>
+  match get_u32 b with None => None | Some (gid, b) =>
+  match get_u32 b with None => None | Some (size, b) =>
+  match take hs b with None => None | Some (hash, b) =>
+  match get_u16 b with None => None | Some (flags, b) =>
+    Some (mkF sec nsec msec mnsec dev ino mode uid gid size hash flags, b)
+  end end end end end end end end end end end end.
+
+(* readEntryName + padEntry for V2/V3 *)
+Definition read_name23 (flags : N) (read : nat) (b : bytes) : res (bytes * bytes) :=
+  let name_len := flags mod 4096 in
+  match (if name_len =? nameMask then
+           match read_until 0 b with None => Err EEof
+           | Some (name, b') => Ok (name, S (List.length name), b') end
+         else match take (N.to_nat name_len) b with None => Err EEof
+              | Some (name, b') => Ok (name, List.length name, b') end) with
+  | Err x => Err x
+  | Ok (name, consumed, b) =>
+    let entry_size := (read + List.length name)%nat in
+    let pad := (8 - entry_size mod 8 - (consumed - List.length name))%nat in
+    match take pad b with None => Err EEof | Some (_, b') => Ok (name, b') end
+  end.
+
+(* doReadEntryNameV4 *)
+Definition read_name4 (last : option bytes) (b : bytes) : res (bytes * bytes) :=
+  match read_varint b with
+  | Err x => Err x
+  | Ok (l, b) =>
+    match (match last with
+           | Some ln => if N.of_nat (List.length ln) <? l then Err EMalformed
+                        else Ok (firstn (List.length ln - N.to_nat l) ln)
+           | None => if 0 <? l then Err EMalformed else Ok []
+           end) with
+    | Err x => Err x
+    | Ok base =>
+      match read_until 0 b with None => Err EEof
+      | Some (suffix, b') => Ok (base ++ suffix, b') end
+    end
+  end.
+
+(* readEntry *)
 Definition read_entry (ver : N) (last : option bytes) (b : bytes) : res (entry * bytes) :=
-  match get_u32 b with None => Err EEof | Some (sec, b) =>
-  match get_u32 b with None => Err EEof | Some (nsec, b) =>
-  match get_u32 b with None => Err EEof | Some (msec, b) =>
-  match get_u32 b with None => Err EEof | Some (mnsec, b) =>
-  match get_u32 b with None => Err EEof | Some (dev, b) =>
-  match get_u32 b with None => Err EEof | Some (ino, b) =>
-  match get_u32 b with None => Err EEof | Some (mode, b) =>
-  match get_u32 b with None => Err EEof | Some (uid, b) =>
-  match get_u32 b with None => Err EEof | Some (gid, b) =>
-  match get_u32 b with None => Err EEof | Some (size, b) =>
-  match take hs b with None => Err EEof | Some (hash, b) =>
-  match get_u16 b with None => Err EEof | Some (flags, b) =>
+  match read_fixed b with None => Err EEof | Some (f, b) =>
+    let flags := f_flags f in
     let stage := (flags / 4096) mod 4 in
     let extended := N.testbit flags 14 in
     match (if extended then
@@ -224,38 +265,16 @@ Definition read_entry (ver : N) (last : option bytes) (b : bytes) : res (entry *
     | Err x => Err x
     | Ok (ita, skip, b) =>
       let read := (42 + hs + (if extended then 2 else 0))%nat in
-      let mk name := mkEntry name stage (mk_time sec nsec) (mk_time msec mnsec) dev ino mode uid gid size hash skip ita in
-      if (ver =? 2) || (ver =? 3) then
-        let name_len := flags mod 4096 in
-        match (if name_len =? nameMask then
-                 match read_until 0 b with None => Err EEof
-                 | Some (name, b') => Ok (name, S (List.length name), b') end
-               else match take (N.to_nat name_len) b with None => Err EEof
-                    | Some (name, b') => Ok (name, List.length name, b') end) with
-        | Err x => Err x
-        | Ok (name, consumed, b) =>
-          let entry_size := (read + List.length name)%nat in
-          let pad := (8 - entry_size mod 8 - (consumed - List.length name))%nat in
-          match take pad b with None => Err EEof | Some (_, b') => Ok (mk name, b') end
-        end
-      else if ver =? 4 then
-        match read_varint b with
-        | Err x => Err x
-        | Ok (l, b) =>
-          match (match last with
-                 | Some ln => if N.of_nat (List.length ln) <? l then Err EMalformed
-                              else Ok (firstn (List.length ln - N.to_nat l) ln)
-                 | None => if 0 <? l then Err EMalformed else Ok []
-                 end) with
-          | Err x => Err x
-          | Ok base =>
-            match read_until 0 b with None => Err EEof
-            | Some (suffix, b') => Ok (mk (base ++ suffix), b') end
-          end
-        end
-      else Err EUnsupportedVersion
+      let mk name := mkEntry name stage (mk_time (f_sec f) (f_nsec f)) (mk_time (f_msec f) (f_mnsec f))
+                             (f_dev f) (f_ino f) (f_mode f) (f_uid f) (f_gid f) (f_size f) (f_hash f) skip ita in
+      match (if (ver =? 2) || (ver =? 3) then read_name23 flags read b
+             else if ver =? 4 then read_name4 last b
+             else Err EUnsupportedVersion) with
+      | Err x => Err x
+      | Ok (name, b') => Ok (mk name, b')
+      end
     end
-  end end end end end end end end end end end end.
+  end.
 
 Fixpoint read_entries (fuel : nat) (ver count : N) (last : option bytes) (b : bytes) (acc : list entry)
   : res (list entry * bytes) :=
